@@ -1,5 +1,6 @@
 import BdModel.Proofs.Sched.Order
 import BdModel.Proofs.Sched.Progress
+import BdModel.Proofs.Sched.Termination
 /-
   C02 — failure and skip containment: final step states follow the DAG semantics.
   Stated as local consistency of every step's label with the labels of its dependencies, in every
@@ -94,9 +95,28 @@ theorem C02_progress (c : Cfg) (hw : WF c) (hrk : Ranked c) (s : State)
     ∃ i s', step c s (.visitDecide i) = some s' ∧ s' ≠ s :=
   scan_progress c hw hrk s hscan hnc hnf hnr
 
+/-- **C02 (runs end).** Every run is finite: each transition strictly decreases the natural-number
+    `measure`, leaves the state unchanged, or is a signal delivery (which never increases it); while
+    `Schedule` has not returned a decreasing transition is enabled. So a step that is not downstream
+    of a blocking step is not merely never left waiting by the loop (`C02_progress`): after at most
+    `measure` productive transitions the run has ended, and then `C02_total` / `C02_labels` apply.
+    (Environment assumption of the model: a running command ends.) -/
+theorem C02_run_ends (c : Cfg) (hw : WF c) (hrk : Ranked c) (hn : NoRep c) (s : State) (hr : Reach c s) :
+    (∀ a s', step c s a = some s' →
+        measure c s' < measure c s ∨ s' = s ∨
+          ((∃ i sig ovr, a = .signalNode i sig ovr) ∧ measure c s' ≤ measure c s)) ∧
+    (s.loop ≠ .returned → ∃ a s', step c s a = some s' ∧ measure c s' < measure c s) ∧
+    (∃ as s', runActs c s as = some s' ∧ s'.loop = .returned ∧ as.length ≤ measure c s) := by
+  have h0 := start_init c
+  have hr' := (reach_iff_from c s).1 hr
+  exact ⟨fun a s' hs => step_measure c hn h0 s hr' a s' hs,
+         fun hnr => productive_enabled c hw hrk hn h0 s hr' hnr,
+         can_return c hw hrk hn h0 _ s hr' rfl⟩
+
 end BdModel.P02
 
 #print axioms BdModel.P02.C02_total
 #print axioms BdModel.P02.C02_labels
 #print axioms BdModel.P02.C02_containment
 #print axioms BdModel.P02.C02_progress
+#print axioms BdModel.P02.C02_run_ends
